@@ -269,31 +269,21 @@ def other_relations():
 NESTED_TMPLS = [('tmpl', 2, 1, K('C', comp(1, ('V', 0)), comp(7, O))), ('tmpl', 3, 1, K('S', comp(1, ('V', 0)), comp(7, O)))]
 
 
-def has_nested(pm):
-    return any(a[0] == 'P' for rf in references(pm) for a in rf[3])
-
-
-def neutralized(pm):
-    """the same module with the actual parameters of every NESTED instantiation replaced by NULL: what is left of the
-    specification's complaints there does not depend on them"""
-    def fix(t):
-        k = t[0]
-        if k == 'P':
-            return ('P', t[1], [('P', a[1], [N] * len(a[2])) if a[0] == 'P' else a for a in t[2]])
-        if k in "STC":
-            f = lambda l: [(c[0], c[1], c[2], fix(c[3])) for c in l]
-            return (k, f(t[1]), None if t[2] is None else f(t[2]), f(t[3]))
-        if k == 'Q':
-            return ('Q', fix(t[1]))
-        return t
-    return {"tagging": pm["tagging"], "items": [it if it[0] == 'tmpl' else (it[0], it[1], it[2], fix(it[3])) for it in pm["items"]]}
-
-
-def nested_choice_instantiation(pm):
-    """an actual parameter is an instantiation of a parameterized type whose body is an untagged CHOICE
-    (predicate of finding C11-param-nested-instantiation-recursion)"""
-    tm = {it[1]: it[3] for it in pm["items"] if it[0] == 'tmpl'}
-    return any(a[0] == 'P' and tm[a[1]][0] == 'C' for rf in references(pm) for a in rf[3])
+def late_forked_constructed_actual(pm):
+    """AUTOMATIC TAGS, and an actual parameter of a NESTED instantiation Q {...} is a constructed type written in place while
+    Q's template stands BEFORE the definition that uses it: Q's specialization is forked after the fixer has passed Q, so its
+    members are never automatically tagged (predicate of finding C11-param-late-spec-untagged)"""
+    if pm["tagging"] != 'A':
+        return False
+    pos = {it[1]: i for i, it in enumerate(pm["items"]) if it[0] == 'tmpl'}
+    for i, it in enumerate(pm["items"]):
+        if it[0] != 'def':
+            continue
+        for rf in references({"tagging": pm["tagging"], "items": [it]}):
+            for a in rf[3]:
+                if a[0] == 'P' and pos.get(a[1], len(pm["items"])) < i and any(strip_w(x)[0] in "STC" for x in a[2]):
+                    return True
+    return False
 
 
 NAMED = [(801, None, K('C', comp(1, I))), (802, None, K('C', comp(1, I), comp(2, B))), (803, None, K('C', comp(1, I), comp(2, N)))]
@@ -361,13 +351,11 @@ def gen_cases(rng, tier):
                 cases.append(("pm:%s:first:%s:%s:%s" % ("CTS"[n % 3], ak, lab, order), build("EI"[n % 2], "CTS"[n % 3], "first", a1, a2, order)))
     # the other shapes, AUTOMATIC TAGS, member sites, template after its uses
     extra = []
-    # nested instantiations as actual parameters only with the parameter as a direct member ("first", above): below
-    # that level (SEQUENCE OF X0, a nested CHOICE) the same defect (finding C11-param-nested-instantiation-recursion)
-    # shows a third face, "Type P3 expects specialization", on valid modules
-    plain_others = [x for x in others if not x[0].startswith("nested:")]
+    # nested instantiations as actual parameters at every member site (they were kept to the direct-member shape while
+    # C11-param-nested-instantiation-recursion was open)
     for tk in "CTS":
         for shape in ("last", "nested", "untagged", "seqof"):
-            for lab, a1, a2 in relations('C') + plain_others:
+            for lab, a1, a2 in relations('C') + others:
                 for order in ("12", "21"):
                     for tg in "EIA":
                         aux = NAMED if lab.startswith("named") else ()
@@ -445,17 +433,14 @@ def run_layer(run, rng, tier, model, asn1c, skel, scratch_dir, ncpu, run_lines, 
         refs = references(pm)
         work.append((lab, pm, text, m, C.mod_line(m), refs))
     lines = [w[4] for w in work]
-    nest = [i for i, w in enumerate(work) if has_nested(w[1])]
-    nlines = [C.mod_line(substituted(neutralized(work[i][1]))) for i in nest]
     plines = []
     for w in work:
         refs = w[5]
         plines.append(" ".join(["c11ps", str(len(refs))] + [x for r in refs for x in alist_tokens(r[3])]))
-    rc, mo, me = run_lines(model, lines + plines + nlines)
-    if rc != 0 or len(mo) != 2 * len(lines) + len(nlines) or any(o.startswith("EXN") or o == "BADCMD" or o.startswith("BADAST") for o in mo):
+    rc, mo, me = run_lines(model, lines + plines)
+    if rc != 0 or len(mo) != 2 * len(lines) or any(o.startswith("EXN") or o == "BADCMD" or o.startswith("BADAST") for o in mo):
         bad = [o for o in mo if o.startswith("EXN") or o == "BADCMD" or o.startswith("BADAST")][:3]
         raise RuntimeError("model driver failed on the parameterized layer: rc=%s %d/%d %s %s" % (rc, len(mo), 2 * len(lines), bad, me[-300:]))
-    no = dict(zip(nest, mo[2 * len(lines):]))
     po = mo[len(lines):2 * len(lines)]
     mo = mo[:len(lines)]
     root = os.path.join(scratch_dir, "c11pm")
@@ -469,30 +454,17 @@ def run_layer(run, rng, tier, model, asn1c, skel, scratch_dir, ncpu, run_lines, 
         run.count("pm:order:" + [x for x in p if x in ORDERS][0])
         g = r.pop("grabbed", None) or {"clones": {}, "uses": {}}
         r["clones"] = g
-        if r["verdict"] == "CRASH" and nested_choice_instantiation(pm):
-            fid = "C11-param-nested-instantiation-recursion"
-            run.case(ln)
-            run.count("asn1c:CRASH")
+        f0 = dict(kv.split("=", 1) for kv in o.split())
+        if r["verdict"] == "REJECT" and r["classes"] == ["tagclash"] and f0["spec"] == "OK" and f0["wf"] == "1" and late_forked_constructed_actual(pm):
+            # the specialization of the inner template is forked after the fixer's pass over that template: no automatic tags
+            # (the single-file face of C12-param-late-spec-unfixed, reachable since nested instantiations keep their parameters)
+            fid = "C11-param-late-spec-untagged"
             if any(fd["id"] == fid for fd in run.findings):
+                run.case(ln)
+                run.count("asn1c:REJECT")
                 run.known_finding(fid, lab)
                 run.count("known:" + fid)
-            else:
-                viol("oracle:distinct_spec", dict(label=lab, module_asn1=text, asn1c=r, input=text,
-                                                  what="asn1c dies (rc %d) on a parameterized type instantiated with an instantiation of a parameterized CHOICE" % r["rc"]))
-            continue
-        if wi in no and r["verdict"] == "ACCEPT":
-            # second face of the same defect: the nested instantiation's own actual parameters never reach a clone, so a
-            # fault inside them is not seen.  Recorded exactly when the specification has no complaint once they are NULL
-            f0 = dict(kv.split("=", 1) for kv in o.split())
-            f3 = dict(kv.split("=", 1) for kv in no[wi].split())
-            if not (f0["spec"] == "OK" and f0["wf"] == "1") and f3["spec"] == "OK" and f3["wf"] == "1" and f3["model"] == "ACCEPT":
-                fid = "C11-param-nested-instantiation-recursion"
-                if any(fd["id"] == fid for fd in run.findings):
-                    run.case(ln)
-                    run.count("asn1c:ACCEPT")
-                    run.known_finding(fid, lab)
-                    run.count("known:" + fid)
-                    continue
+                continue
         clean, f, fam = C.judge(run, lab, m, ln, o, r, text,
                                 replay_cmd="write module_asn1 to m.asn1 in an empty directory; asn1c -S <skeletons> -fcompound-names m.asn1; echo $?; "
                                            "grep -ho 'P[0-9]*_[0-9]*P[0-9]*' *.h | sort -u   (model_line = the module after substituting every reference, in Python)")
